@@ -80,7 +80,7 @@ func (c11) Gen(seed uint64, run int, tier string) *Plan {
 					Action{Kind: "chat", A: 0, S: fmt.Sprintf("a-%d-%d", run, i)}, Action{Kind: "chat", A: 0, S: fmt.Sprintf("b-%d-%d", run, i)},
 					Action{Kind: "par", A: 2}, Action{Kind: "login", A: o}, Action{Kind: "lremove", A: 0, B: b, C: c})
 			} else if p.Policy.Name != "atomic" {
-				p.Actions = append(p.Actions, Action{Kind: "par", A: 2 + r.Intn(3)})
+				p.Actions = append(p.Actions, Action{Kind: "par", A: 2 + r.Intn(3), C: []int{0, 0, 1}[r.Intn(3)]})
 			} else {
 				p.Actions = append(p.Actions, Action{Kind: "chat", A: 0, S: fmt.Sprintf("m-%d", i)})
 			}
@@ -152,9 +152,20 @@ func (c11) Exec(p *Plan, dir string) *Result {
 				n = len(p.Actions) - 1 - i
 			}
 			st.strictNow = false
-			for _, b := range p.Actions[i+1 : i+1+n] {
+			var stalled []*simrt.Task
+			for gi, b := range p.Actions[i+1 : i+1+n] {
+				if a.C == 1 && gi == (n+1)/2 {
+					// fault: whatever is in the middle of something right now (a login's replay, a
+					// broadcast) gets no CPU until the rest of the group has been served
+					stalled = w.Sim.StallRunnable()
+					res.Probe("fault:stalled-goroutine")
+				}
 				st.inject(b)
 				w.Sim.RunSteps(uint64(w.Sim.SchedRand().Intn(60)))
+			}
+			if stalled != nil {
+				w.Sim.Settle()
+				w.Sim.Release(stalled)
 			}
 			i += n
 			res.Probe("parallel-groups")
